@@ -356,10 +356,12 @@ const (
 	ShapeSliced   // junk rows before and after, removed by Slice
 	ShapeSparse   // junk rows interleaved, removed by Filter
 	ShapePermuted // physical rows rotated, restored by Sort on a key column
+	ShapeMidSwap  // first and last row stay in place, the rows between them are stored in reverse order (restored by Sort)
+	ShapeSparsePerm // junk rows interleaved AND the kept rows stored in reverse order (Filter, then Sort)
 	NShapes
 )
 
-var ShapeNames = []string{"identity", "reversed", "sliced", "sparse", "permuted"}
+var ShapeNames = []string{"identity", "reversed", "sliced", "sparse", "permuted", "midswap", "sparseperm"}
 
 const keyCol = "zzkey"
 
@@ -464,6 +466,23 @@ func BuildShape(f Frame, shape int) qframe.QFrame {
 		}
 		g, key := physical(f, n, pos)
 		return sel(withKey(g, key).Sort(qframe.Order{Column: keyCol}))
+	case ShapeMidSwap:
+		pos := make([]int, n)
+		for r := range pos {
+			pos[r] = r
+		}
+		for i, j := 1, n-2; i < j; i, j = i+1, j-1 {
+			pos[i], pos[j] = pos[j], pos[i]
+		}
+		g, key := physical(f, n, pos)
+		return sel(withKey(g, key).Sort(qframe.Order{Column: keyCol}))
+	case ShapeSparsePerm:
+		pos := make([]int, n)
+		for r := range pos {
+			pos[r] = 2*(n-1-r) + 1
+		}
+		g, key := physical(f, 2*n+1, pos)
+		return sel(withKey(g, key).Filter(qframe.Filter{Column: keyCol, Comparator: ">=", Arg: 0}).Sort(qframe.Order{Column: keyCol}))
 	}
 	return Build(f)
 }
